@@ -27,7 +27,7 @@ RULE = (
     "on 3-4-5 directions, mindist in {0, 1e-3..1e4}; (b) seeded random clouds at scales 1e-6..1e8 with coincident data/force points; "
     "(c) dyadic clouds shifted by dyadic offsets (bit-identical Jacobians required); (d) VectorSpline2D with Poisson in [-1,1] incl. "
     "+-1 and mindist in {0, 1e-3..1e4}; (e) Trend degrees 0..6; (f) CheckerBoard with default and explicit wavelengths; (g) Linear / "
-    "Cubic with both rescale settings on isotropic and strongly anisotropic clouds; (h) integer-typed (int32 / int64) query and force coordinates, including values whose squares / powers overflow the integer dtype; (i) fitted Spline / VectorSpline2D / Trend / Chain / "
+    "Cubic with both rescale settings on isotropic and strongly anisotropic clouds; (h) integer-typed (int32 / int64) query and force coordinates, including values whose squares / powers overflow the integer dtype; (i) life-cycle histories: evaluate, change parameters on the same object (set_params or attribute assignment: CheckerBoard region / amplitude / wavelengths, Spline mindist / forces, VectorSpline2D poisson / mindist, Trend degree, Linear / Cubic rescale between fits, instances of sibling classes with different rescale fitted one after the other), evaluate again; (j) fitted Spline / VectorSpline2D / Trend / Chain / "
     "Vector / SplineCV through predict, grid, scatter and profile. Parameters are set by hand (unit vectors, random vectors) on unfitted "
     "estimators as well as estimated by fit; queries are 0-d, 1-D, 2-D and 3-D. A monitored evaluation is non-trivial when its kernel "
     "arguments contain a coincident pair or at least one distance in each of (0,1), [1,e) and >= e (spline family), degree >= 2 (Trend), "
@@ -50,14 +50,16 @@ FLOORS = {  # ~40 % of what the unchanged tree produces (quick seed 0: 1959/4732
               "dist:(0,1)": 380000, "dist:[1,e)": 79000, "dist:>=e": 840000, "dist:coincident": 15000, "integer_coordinates:spline_predict:int32": 80, "integer_coordinates:spline_predict:int64": 80,
               "integer_coordinates:vector_predict:int32": 80, "integer_coordinates:vector_predict:int64": 80, "integer_coordinates:trend_predict:int32": 125,
               "integer_coordinates:trend_predict:int64": 125, "integer_coordinates:spline_jacobian:int32": 40, "integer_coordinates:vector_jacobian:int64": 40,
-              "integer_coordinates:trend_jacobian:int32": 40, "integer:squares_overflow_the_dtype": 40, "integer:powers_overflow_the_dtype": 25},
+              "integer_coordinates:trend_jacobian:int32": 40, "integer:squares_overflow_the_dtype": 40, "integer:powers_overflow_the_dtype": 25,
+              "history:checkerboard": 16, "history:spline": 16, "history:vector": 16, "history:trend": 16, "history:scipy_rescale_refit": 16, "history:scipy_class_state": 16, "checker:parameters_from_the_workload_record": 112, "history:checker_change=region": 10, "history:checker_change=region+w_east+w_north": 8, "eval:checkerboard_wavelengths": 64},
     "thorough": {"eval:spline_jacobian": 15500, "eval:spline_predict": 38000, "eval:vector_jacobian": 11400, "eval:vector_predict": 36500,
                  "eval:trend_jacobian": 8600, "eval:trend_predict": 31000, "eval:checkerboard_predict": 17600, "eval:scipy_predict": 12300,
                  "eval:translation_invariance": 3800, "eval:reference_vs_mpmath": 380, "distinct_nontrivial": 119000,
                  "dist:(0,1)": 8000000, "dist:[1,e)": 1550000, "dist:>=e": 16000000, "dist:coincident": 300000, "integer_coordinates:spline_predict:int32": 1600, "integer_coordinates:spline_predict:int64": 1600,
                  "integer_coordinates:vector_predict:int32": 1600, "integer_coordinates:vector_predict:int64": 1600, "integer_coordinates:trend_predict:int32": 2500,
                  "integer_coordinates:trend_predict:int64": 2500, "integer_coordinates:spline_jacobian:int32": 800, "integer_coordinates:vector_jacobian:int64": 800,
-                 "integer_coordinates:trend_jacobian:int32": 800, "integer:squares_overflow_the_dtype": 800, "integer:powers_overflow_the_dtype": 500},
+                 "integer_coordinates:trend_jacobian:int32": 800, "integer:squares_overflow_the_dtype": 800, "integer:powers_overflow_the_dtype": 500,
+                 "history:checkerboard": 320, "history:spline": 320, "history:vector": 320, "history:trend": 320, "history:scipy_rescale_refit": 320, "history:scipy_class_state": 320, "checker:parameters_from_the_workload_record": 2240, "history:checker_change=region": 200, "history:checker_change=region+w_east+w_north": 160, "eval:checkerboard_wavelengths": 1280},
 }
 JOBS = {"quick": 1, "thorough": 16}
 CASE_TIMEOUT_S = 180
@@ -66,8 +68,8 @@ MPMATH_BUDGET = {"quick": 260, "thorough": 60}  # per process (thorough runs 16 
 
 def plan(tier):
     if tier == "quick":
-        return collections.OrderedDict(ladder=360, pairs=480, translation=240, vector=420, trend=480, checker=420, scipy=420, fitted=300, integer=210)
-    return collections.OrderedDict(ladder=7200, pairs=9600, translation=4800, vector=8400, trend=9600, checker=8400, scipy=8400, fitted=6000, integer=4200)
+        return collections.OrderedDict(ladder=360, pairs=480, translation=240, vector=420, trend=480, checker=420, scipy=420, fitted=300, integer=210, history=240)
+    return collections.OrderedDict(ladder=7200, pairs=9600, translation=4800, vector=8400, trend=9600, checker=8400, scipy=8400, fitted=6000, integer=4200, history=4800)
 
 
 # ----------------------------------------------------------------------
@@ -83,6 +85,17 @@ def _pair(coordinates):
     if east.shape != north.shape:
         return None
     return east.astype("float64").ravel(), north.astype("float64").ravel()
+
+
+# What the workload last set on a CheckerBoard (constructor, set_params or attribute assignment). The monitor takes the parameters "in force" from
+# here when the instance is registered, so a method that writes a derived default back into the instance cannot make the oracle follow it.
+_INTENDED = weakref.WeakKeyDictionary()
+
+
+def _intend(board, **params):
+    rec = _INTENDED.setdefault(board, {"amplitude": 1000, "region": (0, 5000, -5000, 0), "w_east": None, "w_north": None})
+    rec.update(params)
+    return board
 
 
 def _count_integer(run, monitor, coordinates):
@@ -474,13 +487,19 @@ def install(tap, run):
         self = ev.args["self"]
         coords = ev.args["coordinates"]
         east, north = np.asarray(coords[0], dtype="float64"), np.asarray(coords[1], dtype="float64")
-        region = [float(v) for v in self.region]
-        w_east = float(self.w_east) if self.w_east is not None else (region[1] - region[0]) / 2.0
-        w_north = float(self.w_north) if self.w_north is not None else (region[3] - region[2]) / 2.0
-        amplitude = float(self.amplitude)
+        given = _INTENDED.get(self)
+        if given is None:
+            given = {"amplitude": self.amplitude, "region": self.region, "w_east": self.w_east, "w_north": self.w_north}
+        else:
+            run.count("checker:parameters_from_the_workload_record")
+        region = [float(v) for v in given["region"]]
+        w_east = float(given["w_east"]) if given["w_east"] is not None else (region[1] - region[0]) / 2.0
+        w_north = float(given["w_north"]) if given["w_north"] is not None else (region[3] - region[2]) / 2.0
+        amplitude = float(given["amplitude"])
         res = np.asarray(ev.result, dtype="float64")
         run.evaluated("checkerboard_predict")
-        witness = {"easting": east, "northing": north, "amplitude": amplitude, "region": region, "w_east": self.w_east, "w_north": self.w_north, "result": res}
+        witness = {"easting": east, "northing": north, "amplitude": amplitude, "region": region, "w_east": given["w_east"], "w_north": given["w_north"], "result": res,
+                   "instance_attributes_now": {"region": list(self.region), "w_east": self.w_east, "w_north": self.w_north}}
         try:
             shape = np.broadcast(east, north).shape
         except ValueError:
@@ -498,7 +517,7 @@ def install(tap, run):
         ratio = np.where(np.isfinite(res), np.abs(res - expected) / tol, np.inf)
         worst = np.unravel_index(int(np.argmax(ratio)), ratio.shape) if ratio.ndim else ()
         run.observe_max("checkerboard_error_over_tolerance", ratio[worst] if np.isfinite(ratio[worst]) else 1e300)
-        run.count("checker:default_wavelength" if (self.w_east is None or self.w_north is None) else "checker:explicit_wavelength")
+        run.count("checker:default_wavelength" if (given["w_east"] is None or given["w_north"] is None) else "checker:explicit_wavelength")
         if res.size > 1 and np.ptp(expected) > 0:
             run.mark_nontrivial("checker", east, north, amplitude, region, w_east, w_north)
         if not ratio[worst] <= 1:
@@ -1007,7 +1026,184 @@ def _stream_integer(run, rng, verde, index):
                            "compared": "predict / jacobian on integer-typed coordinates against the float64 reference of the same values"})
 
 
-_STREAMS = {"integer": _stream_integer, "ladder": _stream_ladder, "pairs": _stream_pairs, "translation": _stream_translation, "vector": _stream_vector,
+def _stream_history(run, rng, verde, index):
+    """Life-cycle histories: evaluate, change a parameter on the SAME object, evaluate again - the formula must use the CURRENT parameters."""
+    kind = index % 6
+    run.count("history:" + ("checkerboard", "spline", "vector", "trend", "scipy_rescale_refit", "scipy_class_state")[kind])
+    if kind == 0:
+        _history_checker(run, rng, verde, index)
+    elif kind == 1:
+        n, m = int(rng.integers(3, 30)), int(rng.integers(1, 10))
+        m = min(m, n)
+        scale = gen.log_uniform(rng, 1e-2, 1e5)
+        qe, qn = gen.cloud(rng, n, scale=scale)
+        fe, fn = qe[:m].copy() + rng.normal(0, 0.1 * scale, m) * (rng.random(m) < 0.5), qn[:m].copy()
+        est = _hand_spline(verde, 0.0, fe, fn, rng.normal(size=m))
+        est.predict((qe, qn))
+        est.jacobian((qe, qn), (fe, fn))
+        for step in range(3):
+            change = int(rng.integers(0, 4))
+            if change == 0:
+                md = float(rng.choice([0.0, 1e-3, 1.0, 0.3 * scale]))
+                if rng.random() < 0.5:
+                    est.set_params(mindist=md)
+                else:
+                    est.mindist = md
+            elif change == 1:
+                est.force_ = rng.normal(size=est.force_.size) * 10 ** rng.uniform(-3, 3)
+            elif change == 2:
+                k = int(rng.integers(1, 10))
+                est.force_coords_ = (rng.uniform(qe.min(), qe.max(), k), rng.uniform(qn.min(), qn.max(), k))
+                est.force_ = rng.normal(size=k)
+            else:  # a real fit replaces hand-set parameters
+                est.set_params(damping=float(10 ** rng.uniform(-6, 0)))
+                est.fit((qe, qn), gen.smooth_field(rng, qe, qn, 1.0))
+            est.predict((qe, qn))
+            est.jacobian((qe, qn), est.force_coords_)
+            run.count("history:spline_change=%d" % change)
+    elif kind == 2:
+        n, m = int(rng.integers(3, 25)), int(rng.integers(1, 8))
+        m = min(m, n)
+        scale = gen.log_uniform(rng, 1e-1, 1e5)
+        qe, qn = gen.cloud(rng, n, scale=scale)
+        fc = (qe[:m].copy(), qn[:m].copy())
+        vec = verde.VectorSpline2D(poisson=0.5, mindist=float(0.1 * scale), force_coords=fc)
+        vec.force_ = rng.normal(size=2 * m)
+        vec.predict((qe, qn))
+        vec.jacobian((qe, qn), fc)
+        for step in range(3):
+            change = int(rng.integers(0, 3))
+            if change == 0:
+                nu = float(rng.choice([-1.0, 0.0, 0.25, 1.0, rng.uniform(-1, 1)]))
+                if rng.random() < 0.5:
+                    vec.set_params(poisson=nu)
+                else:
+                    vec.poisson = nu
+            elif change == 1:
+                vec.set_params(mindist=float(rng.choice([1e-3, 0.03, 1.0]) * scale))
+            else:
+                vec.force_ = rng.normal(size=2 * m) * 10 ** rng.uniform(-3, 3)
+            vec.predict((qe, qn))
+            vec.jacobian((qe, qn), fc)
+            run.count("history:vector_change=%d" % change)
+    elif kind == 3:
+        n = int(rng.integers(2, 40))
+        qe, qn = gen.cloud(rng, n, scale=gen.log_uniform(rng, 1e-2, 1e3), offset_factor=float(rng.choice([0.0, 1.0])))
+        trend = verde.Trend(int(rng.integers(0, 7)))
+        for step in range(4):
+            nterms = (trend.degree + 1) * (trend.degree + 2) // 2
+            trend.coef_ = rng.normal(size=nterms)
+            if rng.random() < 0.5:
+                trend.jacobian((qe, qn))
+                trend.predict((qe, qn))
+            else:
+                trend.predict((qe, qn))
+                trend.jacobian((qe, qn))
+            degree = int(rng.integers(0, 7))
+            if rng.random() < 0.5:
+                trend.set_params(degree=degree)
+            else:
+                trend.degree = degree
+            trend.jacobian((qe, qn))  # the Jacobian follows the new degree at once (coef_ is replaced at the top of the loop)
+    else:
+        n = int(rng.integers(8, 60))
+        east, north = gen.cloud(rng, n, kind="uniform", scale=gen.log_uniform(rng, 1e-1, 1e4), offset_factor=0.0)
+        north = north * float(10 ** rng.uniform(2, 4))  # strongly anisotropic: rescale changes the triangulation
+        data = gen.smooth_field(rng, east, north)
+        tri = rng.integers(0, n, (20, 3))
+        wts = rng.dirichlet(np.ones(3), 20)
+        query = ((east[tri] * wts).sum(axis=1), (north[tri] * wts).sum(axis=1))
+        classes = (verde.Linear, verde.Cubic)
+        try:
+            if kind == 4:  # rescale changed between two fits of the same instance
+                grd = classes[index // 6 % 2](rescale=bool(index // 12 % 2))
+                grd.fit((east, north), data)
+                grd.predict(query)
+                if rng.random() < 0.5:
+                    grd.set_params(rescale=not grd.rescale)
+                else:
+                    grd.rescale = not grd.rescale
+                grd.fit((east, north), data)
+                grd.predict(query)
+            else:  # instances of the same and of the sibling class created and fitted one after the other with different settings
+                order = [(classes[int(rng.integers(0, 2))], True)] + [(classes[k % 2], bool(rng.random() < 0.4)) for k in range(4)]
+                fitted = []
+                for cls, rescale in order:
+                    grd = cls(rescale=rescale)
+                    grd.fit((east, north), data)
+                    fitted.append(grd)
+                    grd.predict(query)
+                for grd in fitted:  # and again after all of them exist
+                    grd.predict(query)
+        except Exception as exc:  # noqa: BLE001
+            if "qhull" in (type(exc).__name__ + str(exc)).lower():
+                run.count("refused:qhull")
+                return
+            raise
+    run.sample("history", {"kind": kind, "compared": "every predict / jacobian after a parameter change on the same object against the formula with the current parameters"})
+
+
+def _history_checker(run, rng, verde, index):
+    def random_region():
+        scale = gen.log_uniform(rng, 1e-1, 1e5)
+        w, s_ = float(rng.normal() * scale), float(rng.normal() * scale)
+        return (w, w + float(rng.uniform(0.3, 3) * scale), s_, s_ + float(rng.uniform(0.3, 3) * scale))
+
+    region = random_region()
+    board = verde.synthetic.CheckerBoard(region=region) if index % 12 else verde.synthetic.CheckerBoard()
+    _intend(board, **({"region": region} if index % 12 else {}))
+
+    def evaluate():
+        reg = _INTENDED[board]["region"]
+        q = int(rng.integers(4, 30))
+        qe, qn = rng.uniform(reg[0], reg[1], q), rng.uniform(reg[2], reg[3], q)
+        how = int(rng.integers(0, 5))
+        if how == 0:
+            board.predict((qe, qn))
+        elif how == 1:
+            board.grid(shape=(int(rng.integers(3, 8)), int(rng.integers(3, 8))))
+        elif how == 2:
+            board.scatter(size=12, random_state=int(rng.integers(0, 100)))
+        elif how == 3:
+            board.profile(point1=(reg[0], reg[2]), point2=(reg[1], reg[3]), size=9)
+        # reading the public wavelength attributes
+        given = _INTENDED[board]
+        want_e = given["w_east"] if given["w_east"] is not None else (given["region"][1] - given["region"][0]) / 2
+        want_n = given["w_north"] if given["w_north"] is not None else (given["region"][3] - given["region"][2]) / 2
+        got_e, got_n = board.w_east_, board.w_north_
+        run.evaluated("checkerboard_wavelengths")
+        if not (abs(got_e - want_e) <= 4 * EPS * abs(want_e) and abs(got_n - want_n) <= 4 * EPS * abs(want_n)):
+            run.violation("checkerboard_wavelengths", "w_east_, w_north_ = %r, %r; with the current parameters they are %r, %r (region %r, w_east=%r, w_north=%r)"
+                          % (got_e, got_n, want_e, want_n, list(given["region"]), given["w_east"], given["w_north"]),
+                          {"given": dict(given, region=list(given["region"])), "w_east_": got_e, "w_north_": got_n}, key="checker-wavelength-property")
+        board.predict((qe, qn))
+
+    evaluate()
+    for step in range(3):
+        change = int(rng.integers(0, 5))
+        if change == 0:
+            new = {"region": random_region()}
+        elif change == 1:
+            new = {"amplitude": float(rng.normal() * 10 ** rng.uniform(-2, 3))}
+        elif change == 2:
+            reg = _INTENDED[board]["region"]
+            new = {"w_east": float(rng.uniform(0.1, 2) * (reg[1] - reg[0]))}
+        elif change == 3:
+            reg = _INTENDED[board]["region"]
+            new = {"w_north": float(rng.uniform(0.1, 2) * (reg[3] - reg[2]))}
+        else:
+            new = {"region": random_region(), "w_east": None, "w_north": None}
+        if rng.random() < 0.5:
+            board.set_params(**new)
+        else:
+            for key, val in new.items():
+                setattr(board, key, val)
+        _intend(board, **new)
+        run.count("history:checker_change=%s" % "+".join(sorted(new)))
+        evaluate()
+
+
+_STREAMS = {"history": _stream_history, "integer": _stream_integer, "ladder": _stream_ladder, "pairs": _stream_pairs, "translation": _stream_translation, "vector": _stream_vector,
             "trend": _stream_trend, "checker": _stream_checker, "scipy": _stream_scipy, "fitted": _stream_fitted}
 
 
